@@ -40,6 +40,14 @@ def norm_site(o):
     return s
 
 
+def site_shape(o):
+    """Spelling-independent signature of an obligation site: its kind and its expression with every local replaced by its type."""
+    site = norm_site(o)
+    if site != o["site"]:
+        return site                       # panic / unwrap-of-call sites carry no local names
+    return "%s:%s" % (o["kind"], T.render_shape(o["node"])[:140])
+
+
 def aud_key(site):
     """Site signatures are compared modulo binding mode: unary `*`, `&`, `&mut` are dropped (`removed_pos[*pair_idx]` and
     `removed_pos[pair_idx]` are the same operation on the same value)."""
@@ -103,6 +111,7 @@ def run(ctx, res):
     total = 0
     ctx._c01_obs = []
     ctx._c01_bodies = []
+    ctx._c01_sites = []
     for b in bodies + cli_bodies(ctx):
         is_cli = b in getattr(ctx, "_cli_b", [])
         fn = ("cli::" if is_cli else "") + fshort(b)
@@ -141,12 +150,22 @@ def run(ctx, res):
         bsp = b["tree"].get("sp")
         if bsp:
             ctx._c01_bodies.append((bsp[0], bsp[1], bsp[2], bsp[3], bsp[4]))
+        # audited entries are found by their site text; when a local was renamed the text no longer matches, and the entry is
+        # found by its *shape* (locals replaced by their types) - only if exactly one unmatched entry of this function and
+        # exactly one unmatched obligation have that shape
+        by_name = {aud_key(norm_site(o)) for o in obs if (fshort(b), aud_key(norm_site(o))) in aud_sites}
+        unused_entries = [e for e in audited["sites"] if e["fn"] == fshort(b) and aud_key(e["site"]) not in by_name]
+        unmatched_shapes = {}
+        for o in obs:
+            if not o["guard"] and aud_key(norm_site(o)) not in by_name:
+                unmatched_shapes.setdefault(site_shape(o), []).append(o)
         for o in obs:
             osp = o["node"].get("sp")
             if osp:
                 ctx._c01_obs.append((osp[0], osp[1], osp[2], osp[3], osp[4]))
             total += 1
             site = norm_site(o)
+            ctx._c01_sites.append((fshort(b), aud_key(site), site_shape(o)))
             cls = None
             detail = ""
             if is_cli and o["kind"] == "unwrap" and _is_io_expect(o["node"]):
@@ -163,6 +182,13 @@ def run(ctx, res):
             if cls is None:
                 nsite = aud_key(site)
                 a = aud_sites.get((fshort(b), nsite))
+                if a is None:
+                    sh = site_shape(o)
+                    ce = [e for e in unused_entries if e.get("shape") == sh]
+                    if len(ce) == 1 and len(unmatched_shapes.get(sh, [])) == 1:
+                        a = ce[0]
+                        nsite = aud_key(a["site"])
+                        res.info.append("audited entry `%s` of %s matched by shape (site is now `%s`)" % (a["site"], fn, site))
                 if a is not None:
                     results = [(pid,) + premise(pid) for pid in a["premises"]]
                     if all(r[1] for r in results):
@@ -265,10 +291,20 @@ def verify_summaries(ctx, res, summaries):
         _collect_results(w2, b, results)
         bad = []
         n_some = 0
+        expanded = []
         for facts, node in results:
             node = T.peel(node) if node is not None else None
             if node is None:
                 continue
+            if node.get("k") == "path" and T.local_of(node) is not None:
+                vals = _local_values(b, T.local_of(node))
+                if vals is None:
+                    bad.append("result `%s` is a local whose possible values cannot be enumerated" % T.render(node))
+                    continue
+                expanded += [(facts, T.peel(v)) for v in vals]
+            else:
+                expanded.append((facts, node))
+        for facts, node in expanded:
             if node.get("k") == "call" and (T.cname(node) or "").endswith("::Some"):
                 n_some += 1
                 x = oblig.term(node["args"][0])
@@ -295,6 +331,70 @@ def verify_summaries(ctx, res, summaries):
             res.add(Finding("C01.S", fn, site, "callee summary no longer holds: " + "; ".join(bad[:3]), loc=T.loc(b["tree"])))
         else:
             res.holds("C01.S", fn, site, "verified at %d Some(..) results" % n_some)
+
+
+def _result_exprs(e, depth=0):
+    """The expressions whose value an expression may take: through blocks (incl. the `break 'inl e` of an inlined helper),
+    `match` arms and `if` branches."""
+    e = T.peel(e)
+    k = e.get("k")
+    if depth > 6:
+        return [e]
+    if k in ("blockexpr", "block"):
+        blk = e["block"] if k == "blockexpr" else e
+        out = []
+        if blk.get("tail") is not None:
+            out += _result_exprs(blk["tail"], depth + 1)
+        if k == "blockexpr" and e.get("inlined"):
+            for n in T.nodes(blk):
+                if n.get("k") == "break" and n.get("target") == e["id"] and n.get("e") is not None:
+                    out += _result_exprs(n["e"], depth + 1)
+        return out
+    if k == "match":
+        out = []
+        for a in e["arms"]:
+            out += _result_exprs(a["body"], depth + 1)
+        return out
+    if k == "if" and e.get("els") is not None:
+        return _result_exprs(e["then"], depth + 1) + _result_exprs(e["els"], depth + 1)
+    return [e]
+
+
+def _local_values(b, lid):
+    """Expressions a pattern-bound local may equal: `if let Ctor(x) = E` / `match E { Ctor(x) => .. }` / `let x = E`, with E's
+    result expressions of the form Ctor(a) giving a.  None if the binding site is of another kind."""
+    for n in T.nodes(b["tree"]):
+        k = n.get("k")
+        sites = []
+        if k == "let" and n.get("init") is not None:
+            sites.append((n["pat"], n["init"]))
+        elif k == "let_cond":
+            sites.append((n["pat"], n["e"]))
+        elif k == "match":
+            sites += [(a["pat"], n["scrut"]) for a in n["arms"]]
+        for pat, scrut in sites:
+            p = pat
+            while p.get("p") == "ref":
+                p = p["pat"]
+            if p.get("p") == "bind" and p.get("id") == lid:
+                return _result_exprs(scrut)
+            if p.get("p") in ("tuple_struct", "struct"):
+                subs = p.get("pats") or [f["pat"] for f in p.get("fields", [])]
+                idx = [i for i, sp_ in enumerate(subs) if sp_.get("p") == "bind" and sp_.get("id") == lid]
+                if len(idx) == 1:
+                    ctor = p["res"].get("path")
+                    out = []
+                    for r in _result_exprs(scrut):
+                        if r.get("k") == "call" and T.peel(r["f"]).get("k") == "path" and T.peel(r["f"])["res"].get("path") == ctor and idx[0] < len(r["args"]):
+                            out.append(r["args"][idx[0]])
+                        elif r.get("k") == "call" and T.peel(r["f"]).get("k") == "path" and str(T.peel(r["f"])["res"].get("dk", "")).startswith("Ctor"):
+                            continue          # another variant: this pattern does not match it
+                        elif r.get("k") == "path" and str(r["res"].get("dk", "")).startswith("Ctor"):
+                            continue
+                        else:
+                            return None
+                    return out
+    return None
 
 
 def _collect_results(w, b, results):
